@@ -1634,6 +1634,11 @@ impl Vm {
         } else {
             self.push(exc_object);
         }
+        if self.active_fiber().frames.len() > handler.frame_count {
+            // The frame the exception was raised in is discarded: the recorded location describes
+            // none of the frames that remain (not even another activation of the same function).
+            self.active_fiber_mut().error_ip = None;
+        }
         self.active_fiber_mut().frames.truncate(handler.frame_count);
         self.handling_exception = handler.has_catch_block();
         if !self.handling_exception {
